@@ -724,11 +724,14 @@ fn c02_real(rep: &mut Report, thorough: bool) {
     let test_mapfile = test_table.mapfile_text(REGS);
     let vals = valuations();
     let (cases, _) = gen_cases(&test_table, if thorough { 3 } else { 2 }, 2, 2, 400_000);
-    for host in crate::c01::hosts().into_iter().filter(|h| h.regs.is_some()) {
+    let n_full = crate::c01::hosts().len();
+    for (hi, host) in crate::c01::hosts().into_iter().chain(crate::c01::all_game_hosts()).enumerate().filter(|(_, h)| h.regs.is_some()) {
+        // the all-games hosts (every other game with a register language) take every 8th generated body
+        let reduced = hi >= n_full;
         let lang = if host.tool.kind == Kind::Ecl { truth::LanguageKey::Ecl } else { truth::LanguageKey::Anm };
         let extra: Vec<(u16, &str, &str)> = [("m0", ""), ("mS", "S"), ("mf", "f"), ("mSS", "SS"), ("mSf", "Sf"), ("mfS", "fS"), ("mff", "ff"), ("mSSS", "SSS"), ("mfff", "fff"), ("mSfSf", "SfSf")].iter().enumerate().map(|(i, (n, s))| (host.op_base + i as u16, *n, *s)).collect();
         let host_table = Table::from_core(host.tool.game, lang, &extra, host.name == "ecl06");
-        let usable: Vec<&Case> = cases.iter().filter(|c| host.has_difficulty || !(c.body.contains("{\"") || crate::c01::has_switch(&c.body))).collect();
+        let usable: Vec<&Case> = cases.iter().enumerate().filter(|(i, _)| !reduced || i % 8 == 0).map(|(_, c)| c).filter(|c| host.has_difficulty || !(c.body.contains("{\"") || crate::c01::has_switch(&c.body))).collect();
         let results = par_map(&usable, Some(deadline), |_, c| check_real(&host, &host_table, &test_table, &test_mapfile, c, &vals));
         for (i, r) in results.into_iter().enumerate() {
             let Some(o) = r else { rep.cap_hit = Some(format!("wall cap in real-language family ({})", host.name)); continue; };
